@@ -77,6 +77,15 @@ var mgWants = []mgWant{
 	{"internal/workers/continuous_pool.go", "ContinuousPool", "startWorker", "", "cpool_startWorker"},
 	{"internal/workers/continuous_pool.go", "ContinuousPool", "maxIterationsReached", "", "cpool_maxIterationsReached"},
 	{"internal/run/run_cmd.go", "", "runCmdExecute", "return", "cmd_execute"},
+	{"internal/metrics/result.go", "", "Result", "", "metrics_Result"},
+	{"internal/run/result.go", "Result", "Summary", "", "result_Summary"},
+	{"internal/run/result.go", "Result", "Progress", "", "result_Progress"},
+	{"internal/run/result.go", "Result", "SnapshotProgress", "", "result_SnapshotProgress"},
+	{"internal/run/result.go", "Result", "GetTotals", "", "result_GetTotals"},
+	{"internal/run/result.go", "Result", "Snapshot", "", "result_Snapshot"},
+	{"internal/run/result.go", "Result", "AddError", "", "result_AddError"},
+	{"pkg/f1/profiling.go", "profiling", "start", "", "profiling_start"},
+	{"pkg/f1/profiling.go", "profiling", "stop", "", "profiling_stop"},
 	{"pkg/f1/testing/t.go", "T", "teardown", "", "t_teardown"},
 	{"pkg/f1/testing/t.go", "T", "Cleanup", "", "t_Cleanup"},
 	{"pkg/f1/testing/t.go", "", "handlePanic", "", "t_handlePanic"},
@@ -439,6 +448,16 @@ func (c *mgCtx) expr(e ast.Expr) string {
 		}
 		return c.unsupportedE(e)
 	case *ast.BinaryExpr:
+		if x.Op == token.EQL || x.Op == token.NEQ {
+			// s == "" / s != "": the length of the string against 0
+			for _, pair := range [][2]ast.Expr{{x.X, x.Y}, {x.Y, x.X}} {
+				if bl, ok := pair[1].(*ast.BasicLit); ok && bl.Kind == token.STRING && (bl.Value == `""` || bl.Value == "``") {
+					if p := c.path(pair[0]); p != "" {
+						return "(.bin ." + binOps[x.Op] + " (.len " + leanStr(p) + ") (.int 0))"
+					}
+				}
+			}
+		}
 		if op, ok := binOps[x.Op]; ok {
 			return "(.bin ." + op + " " + c.expr(x.X) + " " + c.expr(x.Y) + ")"
 		}
@@ -993,6 +1012,24 @@ func (c *mgCtx) stmt(s ast.Stmt) string {
 				parts = append(parts, ".ret0")
 				return seq(parts)
 			}
+			if call, ok := x.Results[0].(*ast.CallExpr); ok {
+				// return f(T{F: e, …}): the fields of the literal become observable as `$lit.<T>.<F>`, then the call
+				var pre []string
+				for _, a := range call.Args {
+					if cl, isLit := a.(*ast.CompositeLit); isLit {
+						for _, el := range cl.Elts {
+							if kv, ok := el.(*ast.KeyValueExpr); ok {
+								if k, ok := kv.Key.(*ast.Ident); ok {
+									pre = append(pre, "(.assign "+leanStr("$lit."+c.text(cl.Type)+"."+k.Name)+" "+c.expr(kv.Value)+")")
+								}
+							}
+						}
+					}
+				}
+				if len(pre) > 0 {
+					return seq(append(pre, "(.ret1 "+c.expr(x.Results[0])+")"))
+				}
+			}
 			return "(.ret1 " + c.expr(x.Results[0]) + ")"
 		case 2:
 			if u, ok := x.Results[0].(*ast.UnaryExpr); ok && u.Op == token.AND {
@@ -1207,8 +1244,21 @@ func translateMiniGo(repo string) string {
 				n++
 			}
 		}
-		// aliases: `x := <selector chain>` with x never reassigned nor address-taken
+		// aliases: `x := <selector chain>` with x never reassigned nor address-taken, and the chain never assigned
 		re := reassigned(fd)
+		assignedPaths := map[string]bool{}
+		ast.Inspect(fd.Body, func(nd ast.Node) bool {
+			if as, ok := nd.(*ast.AssignStmt); ok {
+				for _, l := range as.Lhs {
+					if _, isSel := l.(*ast.SelectorExpr); isSel {
+						if p := c.path(l); p != "" {
+							assignedPaths[p] = true
+						}
+					}
+				}
+			}
+			return true
+		})
 		ast.Inspect(fd.Body, func(nd ast.Node) bool {
 			as, ok := nd.(*ast.AssignStmt)
 			if !ok || as.Tok != token.DEFINE || len(as.Lhs) != 1 || len(as.Rhs) != 1 {
@@ -1222,7 +1272,7 @@ func translateMiniGo(repo string) string {
 				if r := rootIdent(as.Rhs[0]); r != nil && c.opaque[r.Name] {
 					return true
 				}
-				if p := c.path(as.Rhs[0]); p != "" && !c.atomics[lastField(p)] {
+				if p := c.path(as.Rhs[0]); p != "" && !c.atomics[lastField(p)] && !assignedPaths[p] {
 					c.alias[id.Name] = p
 				}
 			}
